@@ -53,6 +53,7 @@ func c15Gen(r *Rng) c15WS {
 	cyc := r.Chance(1, 4)
 	fileText := map[string]*strings.Builder{}
 	fileLine := map[string]int{}
+	openBlock := map[string]bool{} // the file's last class has no variable and no blank line after it yet
 	// one class may be declared in two parts (part1.lua / part2.lua). Both parts live in files of their own: a file that
 	// declares a class itself resolves the name locally first (by design), so the union of the parts is only defined for
 	// files that declare neither part.
@@ -118,6 +119,12 @@ func c15Gen(r *Rng) c15WS {
 			fileText[c.File] = sb
 		}
 		emit := func(s string) { sb.WriteString(s + "\n"); fileLine[c.File]++ }
+		if openBlock[c.File] {
+			if c.HasVar || r.Fork(uint64(0xad00+i)).Bool() {
+				emit("")
+			}
+			openBlock[c.File] = false
+		}
 		hdr := "---@class " + nm
 		if len(c.Parents) > 0 {
 			hdr += " : " + strings.Join(c.Parents, ", ")
@@ -142,8 +149,16 @@ func c15Gen(r *Rng) c15WS {
 				}
 			}
 		}
-		emit("")
+		// a class without a table variable may be followed directly by the next class of the file, if that one has no
+		// variable either (one comment block holding several ---@class declarations; which class a variable below such
+		// a block would belong to is not documented, so no variable follows one)
+		if c.HasVar {
+			emit("")
+		} else {
+			openBlock[c.File] = true
+		}
 	}
+	_ = openBlock
 	// a class declared in two parts: the same ---@class name appears again in another file with further fields
 	if splitIdx >= 0 {
 		c := w.Classes[names[splitIdx]]
